@@ -92,6 +92,13 @@ def split_rows(out, fmt, ncols=None):
             return None
     if fmt == "html":
         return re.findall(rb"<tr>.*?</tr>", out, re.S)
+    if fmt == "csv":
+        import csv
+        import io
+        try:
+            return [repr(rw).encode() for rw in csv.reader(io.StringIO(out.decode("utf-8"), newline=""), strict=True)]
+        except Exception:
+            return None
     if fmt in ("list", "lines"):
         if not ncols:
             return None
@@ -103,7 +110,10 @@ def split_rows(out, fmt, ncols=None):
             return None
         return [sep.join(vals[i:i + ncols]) for i in range(0, len(vals), ncols)]
     rows = out.split(b"\n")
-    return rows[:-1] if rows and rows[-1] == b"" else rows
+    rows = rows[:-1] if rows and rows[-1] == b"" else rows
+    if ncols and any(rw.count(b"\t") != ncols - 1 for rw in rows):
+        return None      # a value contains a separator: rows are ambiguous in this format
+    return rows
 
 
 def compare(model_res, impl, fmt="tabs", ncols=None):
@@ -121,7 +131,9 @@ def compare(model_res, impl, fmt="tabs", ncols=None):
         ok = False
         if model_res["unordered"]:
             a, b = split_rows(mo, fmt, ncols), split_rows(io, fmt, ncols)
-            if a is not None and b is not None and len(a) == len(b) == sum(model_res["ties"]):
+            if a is None or b is None:
+                ok = sorted(mo) == sorted(io)      # same bytes in some order (rows ambiguous in this format)
+            elif len(a) == len(b) == sum(model_res["ties"]):
                 ok = True
                 pos = 0
                 for run in model_res["ties"]:
